@@ -127,9 +127,11 @@ theorem frame_urlencBodyCallback (cfg : Cfg) (uid : Nat) (data : Option Bytes) (
     | none => exact FrameDirs.refl c
     | some u =>
       simp only
-      cases data with
-      | some d => exact frame_setTx _ _
-      | none => simp only; split <;> first | exact FrameDirs.refl c | exact frame_setTx _ _
+      split
+      · exact FrameDirs.refl c
+      · cases data with
+        | some d => exact frame_setTx _ _
+        | none => exact frame_setTx _ _
 
 theorem frame_mpartFileEvents (uid : Nat) (evs : List (Nat × Option Bytes)) (c : Conn) :
     FrameDirs c (mpartFileEvents uid evs c) := by
